@@ -4,6 +4,7 @@ import (
 	"fmt"
 	"go/ast"
 	"go/types"
+	"sort"
 	"strings"
 )
 
@@ -106,4 +107,35 @@ func checkDecodedContainers(res *Result, rule, why string) {
 		}
 	}
 	res.Count(rule+" decoders of non-functional properties", n, 42)
+}
+
+// checkMembersDecoded: for every generated type that has one of the named properties, the member
+// is decoded (deserialiser called and its result stored in the field) and claimed. The pub
+// mechanisms read documents only through these typed properties: a type whose decoder skips one
+// hands pub a value on which the member is simply absent.
+func checkMembersDecoded(res *Result, rule string, names []string, why string) {
+	M := loadGenModel()
+	want := map[string]bool{}
+	for _, n := range names {
+		want[n] = true
+	}
+	n := 0
+	var bad []string
+	for _, tm := range M.Types {
+		tt := extractTypeTables(M, tm)
+		for _, pm := range tm.Fields {
+			if !want[pm.Name] {
+				continue
+			}
+			n++
+			if !tt.deser[pm.key()] || !tt.assigned[pm.key()] {
+				bad = append(bad, tm.G.Name+"."+pm.Name+" (not decoded)")
+			} else if !tt.claimed[pm.Name] {
+				bad = append(bad, tm.G.Name+"."+pm.Name+" (not claimed)")
+			}
+		}
+	}
+	sort.Strings(bad)
+	res.Count(rule+" (type, member) pairs", n, len(names))
+	res.check(len(bad) == 0, rule, "streams/impl", "-", fmt.Sprintf("every type decodes and claims its %s member(s) (%d type/member pairs)", strings.Join(names, ", "), n), strings.Join(bad, ", ")+" — "+why)
 }
